@@ -12,6 +12,7 @@ import (
 	"os"
 	"path"
 	"path/filepath"
+	"strconv"
 	"strings"
 
 	"github.com/imdario/mergo"
@@ -197,6 +198,8 @@ func (cl *Loader) load(file string) (config map[string]interface{}, err error) {
 				return nil, fmt.Errorf("load import error: %v", err)
 			}
 
+			unifyMapKinds(config, raw)
+
 			err = mergo.Merge(&config, raw, mergo.WithOverride, mergo.WithAppendSlice, mergo.WithTypeCheck)
 			if err != nil {
 				return nil, err
@@ -205,6 +208,65 @@ func (cl *Loader) load(file string) (config map[string]interface{}, err error) {
 	}
 
 	return config, nil
+}
+
+// unifyMapKinds prepares two documents for merging. yaml.v2 represents nested mappings as
+// map[interface{}]interface{}, the other formats as map[string]interface{}, and mergo cannot merge
+// one kind into the other: as soon as either document holds string-keyed mappings both are brought
+// to that form.
+func unifyMapKinds(a, b map[string]interface{}) {
+	stringKeyed := false
+	for _, doc := range []map[string]interface{}{a, b} {
+		for _, v := range doc {
+			if _, ok := v.(map[string]interface{}); ok {
+				stringKeyed = true
+			}
+		}
+	}
+	if !stringKeyed {
+		return
+	}
+
+	for _, doc := range []map[string]interface{}{a, b} {
+		for k, v := range doc {
+			doc[k] = stringKeyedMaps(v)
+		}
+	}
+}
+
+// stringKeyedMaps turns the map[interface{}]interface{} values of a YAML document into
+// map[string]interface{}; non-string keys are rendered the way the weakly typed decoder renders them
+func stringKeyedMaps(v interface{}) interface{} {
+	switch x := v.(type) {
+	case map[interface{}]interface{}:
+		m := make(map[string]interface{}, len(x))
+		for k, e := range x {
+			m[mapKeyString(k)] = stringKeyedMaps(e)
+		}
+		return m
+	case []interface{}:
+		for i, e := range x {
+			x[i] = stringKeyedMaps(e)
+		}
+	}
+
+	return v
+}
+
+func mapKeyString(k interface{}) string {
+	switch x := k.(type) {
+	case string:
+		return x
+	case bool:
+		if x {
+			return "1"
+		}
+		return "0"
+	case float64:
+		return strconv.FormatFloat(x, 'f', -1, 64)
+	}
+
+	return fmt.Sprint(k)
 }
 
 func (cl *Loader) loadDir(dir string) (map[string]interface{}, error) {
@@ -224,6 +286,8 @@ func (cl *Loader) loadDir(dir string) (map[string]interface{}, error) {
 		if err != nil {
 			return nil, fmt.Errorf("%s: %v", importFile, err)
 		}
+
+		unifyMapKinds(cm, cml)
 
 		err = mergo.Merge(&cm, cml, mergo.WithOverride, mergo.WithAppendSlice, mergo.WithTypeCheck)
 		if err != nil {
